@@ -10,7 +10,10 @@
  *  - plain loads/stores of write_pt / read_pt / data words reach sched_rt.c's __tsan_read4/write4 through the
  *    regions registered by rbc_attach ("R hdr[0]" = write_pt, "hdr[1]" = read_pt, "d[i]" = data word i);
  *  - rbc_step: one scheduling step of one thread, followed by a diff of the whole shared state (both pointers,
- *    every data word, the semaphore count) against a shadow copy: one "c <loc>=<value>" line per change.
+ *    every data word, the semaphore count) against a shadow copy: one "c <loc>=<value>" line per change;
+ *  - rbc_watch: memory that nothing may store to after qb_rb_open (both private handle structures with their
+ *    cached flags / pointers / notifier table, word_size, ref_count and the path names in the shared header) is
+ *    compared with a copy taken before the run after every step as well: "c ro <name> changed".
  *
  * Outside virtual threads (main thread: ring creation, sequential prologue) everything runs directly. */
 #define _GNU_SOURCE
@@ -45,8 +48,26 @@ static struct {
 
 static int waiting[16];
 
+#define NWATCH 8
+static struct { const char *name; const void *addr; size_t len; void *copy; } watch[NWATCH];
+static int nwatch;
+
+void rbc_watch(const char *name, const void *addr, size_t len)
+{
+	if (nwatch >= NWATCH) return;
+	watch[nwatch].name = name;
+	watch[nwatch].addr = addr;
+	watch[nwatch].len = len;
+	watch[nwatch].copy = malloc(len);
+	__real_memcpy(watch[nwatch].copy, addr, len);
+	nwatch++;
+}
+
 void rbc_detach(void)
 {
+	int i;
+	for (i = 0; i < nwatch; i++) free(watch[i].copy);
+	nwatch = 0;
 	free(R.shadow);
 	memset(&R, 0, sizeof R);
 	memset(waiting, 0, sizeof waiting);
@@ -116,6 +137,12 @@ static void diff(void)
 	}
 	sv = semvalue();
 	if (sv != R.sh_sem) { R.sh_sem = sv; printf("c sem=%d\n", sv); }
+	for (i = 0; i < (uint32_t)nwatch; i++) {
+		if (memcmp(watch[i].copy, watch[i].addr, watch[i].len) != 0) {
+			__real_memcpy(watch[i].copy, watch[i].addr, watch[i].len);
+			printf("c ro %s changed\n", watch[i].name);
+		}
+	}
 }
 
 int rbc_enabled(int tid, const int *done)
